@@ -26,6 +26,43 @@ def must_pass_through(view, block, targets):
     return not (r & set(targets))
 
 
+def on_every_success_path(view, block, targets, operand=None):
+    """`block` lies on every path to a successful return -- directly, or as the unconditional body of a `for` loop
+    (`for ledger in [A, B] { store_fee(.., ledger)?; }`) whose header lies on every such path: `operand` must derive from
+    that loop's `next()` (the caller has resolved it to the constants of a literal, which is therefore not empty) and no
+    iteration may complete, and no success return be reached from inside the body, without passing the block."""
+    if must_pass_through(view, block, targets):
+        return True
+    if operand is None:
+        return False
+    with view.opaque(r"Iterator>::next$"):
+        os_ = view.origins_of_operand(operand, at=view.at_term(block))
+    heads = {int(o.b.rsplit(":bb", 1)[1]) for o in os_
+             if o.kind == "call" and o.a.endswith("Iterator>::next") and o.b and o.b.startswith(view.path + ":bb")}
+    if len(heads) != 1 or len(os_) != 1:
+        return False
+    h = next(iter(heads))
+    if not must_pass_through(view, h, targets):
+        return False
+    # the switch on the Option returned by next()
+    x = view.blocks[h]["t"].get("target")
+    steps = 0
+    while x is not None and view.blocks[x]["t"]["k"] in ("goto", "drop") and steps < 4:
+        x = view.blocks[x]["t"]["target"]
+        steps += 1
+    if x is None or view.blocks[x]["t"]["k"] != "switch":
+        return False
+    t = view.blocks[x]["t"]
+    arms = [y for _, y in t["targets"]] + ([t["otherwise"]] if t.get("otherwise") is not None else [])
+    body = [y for y in arms if y == block or block in view.reachable(y, cut_blocks=[h])]
+    if len(body) != 1:
+        return False
+    if body[0] == block:
+        return True
+    r = view.reachable(body[0], cut_blocks=[block])
+    return h not in r and not (r & set(targets))
+
+
 def ok_value_blocks(view):
     """Blocks where `_0 = Ok(..)` is built."""
     out = []
@@ -161,3 +198,180 @@ def check_migration_copy(ctx, model, rule, path, adt_suffix, new_fields):
                    "rebuilt %s: %s" % (adt_suffix.split("::")[-1], "; ".join(bad) if bad else "every pre-existing field copied from the same-named old field"), v.where(b))
     if n == 0:
         ctx.missing(rule, "%s rebuilt in %s" % (adt_suffix, path))
+
+
+_VEC_ADD_RE = re.compile(r"^std::(?:vec::Vec|collections::VecDeque)::(push|push_back|insert|append|extend_from_slice)$"
+                         r"|^<std::vec::Vec<.*> as std::iter::Extend<.*>>::(extend)$")
+
+
+def vec_additions(view, elem_ty_rx=None):
+    """Every place of this function where elements are added to a growable vector, in whatever spelling:
+    [(block, term_or_None, operand, how, at)] with how in push|insert|extend|append|literal; `at` is the program point at
+    which the operand's provenance is to be read; entries are listed in source order within one literal. `v.push(x)` / `v.insert(i, x)` add
+    the operand; `v.extend(xs)` / `v.append(&mut w)` add the elements of the operand (an Option, a Vec, an iterator);
+    `vec![a, b]` adds its elements in order (one entry per element, same block). `elem_ty_rx` filters on the type of the
+    vector local when it is known."""
+    out = []
+    for b, t in view.iter_calls():
+        m = _VEC_ADD_RE.search(mname(t))
+        if not m or len(t["args"]) < 2:
+            continue
+        how = m.group(1) or m.group(2)
+        if elem_ty_rx is not None and t["args"][0]["k"] in ("copy", "move"):
+            tys = set()
+            r = t["args"][0]["pl"]["l"]
+            for d in view.defs().get(r, []):
+                if d[0] == "s" and d[3]["rv"]["r"] == "ref":
+                    tys.add(str(view.local_ty(d[3]["rv"]["pl"]["l"])))
+            if tys and not any(re.search(elem_ty_rx, x) for x in tys):
+                continue
+        out.append((b, t, t["args"][-1], {"push_back": "push", "extend_from_slice": "extend"}.get(how, how), view.at_term(b)))
+    # vec![..] literals: the array aggregate written into the box that box_assume_init_into_vec_unsafe turns into a Vec
+    for b, t in view.calls_to(r"^std::boxed::box_assume_init_into_vec_unsafe$"):
+        if elem_ty_rx is not None and not re.search(elem_ty_rx, str(view.local_ty(t["dest"]["l"]))):
+            continue
+        a0 = t["args"][0]
+        if a0["k"] not in ("copy", "move"):
+            continue
+        boxes = {a0["pl"]["l"]} | view.alias_roots(a0["pl"]["l"])
+        for sb, si, s_ in view.iter_stmts():
+            if "*" not in s_["lhs"]["p"]:
+                continue
+            if not (({s_["lhs"]["l"]} | view.alias_roots(s_["lhs"]["l"])) & boxes):
+                continue
+            rv = s_["rv"]
+            if rv["r"] == "agg" and rv.get("array"):
+                for k, op in enumerate(rv["ops"]):
+                    out.append((sb, None, op, "literal", (sb, si)))
+    return out
+
+
+_STR_CMP = re.compile(r"^<(?:std::string::String|str|&str|&std::string::String) as std::cmp::PartialEq(?:<.*>)?>::(eq|ne)$")
+
+
+def closure_string_test(cv):
+    """How a predicate closure compares strings: 'eq' (true when equal), 'ne' (true when different) or None (no
+    string comparison / mixed). `!(a == b)` counts as 'ne'."""
+    pol = set()
+    for b, t in cv.iter_calls():
+        m = _STR_CMP.search(mname(t))
+        if not m:
+            continue
+        p = m.group(1)
+        d = t["dest"]["l"]
+        for sb, si, s_ in cv.iter_stmts():
+            rv = s_["rv"]
+            if rv["r"] == "un" and rv["op"] == "Not" and rv["a"].get("k") in ("copy", "move") and rv["a"]["pl"]["l"] == d:
+                p = "ne" if p == "eq" else "eq"
+        pol.add(p)
+    return next(iter(pol)) if len(pol) == 1 else None
+
+
+def membership_test(model, view, c):
+    """A branch condition that tests membership of a string in a collection, in any of its spellings:
+    `xs.iter().any(|x| x == d)` (true = member), `xs.iter().all(|x| x != d)` (true = NOT a member), `xs.contains(&d)`.
+    Returns (collection origins, True if the condition being true means 'is a member') or None."""
+    if c.kind != "call" or not c.term["args"]:
+        return None
+    n = c.callee
+    a0 = view.origins_of_operand(c.term["args"][0], at=view.at_term(c.block))
+    if n.endswith("::contains"):
+        return a0, True
+    which = "any" if n.endswith("as std::iter::Iterator>::any") else "all" if n.endswith("as std::iter::Iterator>::all") else None
+    if which is None or len(c.term["args"]) < 2:
+        return None
+    tests = set()
+    for o in view.origins_of_operand(c.term["args"][1], at=view.at_term(c.block), taint=True):
+        if o.kind == "closure" and o.a in model.fnsrc:
+            tests.add(closure_string_test(model.view(o.a)))
+    if tests == {"eq"} and which == "any":
+        return a0, True
+    if tests == {"ne"} and which == "all":
+        return a0, False
+    return None
+
+
+# ---------------------------------------------------------------------------------------
+# a function together with the closures it creates (a `for` loop and an iterator pipeline are the same program)
+
+def scope_views(model, path, depth=3, _chain=()):
+    """[(view, chain)] for the function and, recursively, every closure created in it; `chain` is what guards.resolve
+    needs to translate the closure's captured variables and element arguments back into the enclosing function."""
+    if path not in model.fnsrc:
+        return []
+    v = model.view(path)
+    out = [(v, _chain)]
+    if depth > 0:
+        for cb, cp, ops in v.closures_created():
+            if cp in model.fnsrc:
+                out += scope_views(model, cp, depth - 1, _chain + ((path, cb, "closure"),))
+    return out
+
+
+def scope_calls(model, path, rx):
+    """[(view, chain, block, term)] call sites matching rx in the function or in one of its closures."""
+    out = []
+    for v, chain in scope_views(model, path):
+        for b, t in v.calls_to(rx):
+            out.append((v, chain, b, t))
+    return out
+
+
+def scope_origins(model, chain, view, operand, at, proj=(), taint=False):
+    from ..guards import resolve
+    return resolve(model, chain, view, view.origins_of_operand(operand, proj=proj, at=at, taint=taint), taint=taint, elems=True)
+
+
+def scope_attached(model, chain, view, local):
+    """The value in `local` reaches the response: directly (a response sink in its own function), or by being what the
+    closure returns to an adapter call (`.map(|x| x.into_msg(..))`) whose result reaches one in the enclosing function."""
+    from ..dataflow import forward_flow
+    tainted, sinks, ret = forward_flow(view, [local])
+    if sinks:
+        return True
+    if not chain:
+        return bool(ret)
+    if not ret:
+        return False
+    caller, cb, kind = chain[-1]
+    pv = model.view(caller)
+    for b_, cp, ops in pv.closures_created():
+        if cp == view.path and b_ == cb:
+            for sb, si, s_ in pv.iter_stmts():
+                if sb == cb and s_["rv"]["r"] == "agg" and s_["rv"].get("closure") == cp:
+                    return scope_attached(model, chain[:-1], pv, s_["lhs"]["l"])
+    return False
+
+
+def zero_test(view, c):
+    """A branch condition that tests an unsigned quantity against zero, in any spelling: `x.is_zero()`, `x == T::zero()`,
+    `x != zero`, `x > zero`, `zero < x`, `x <= zero`. Returns (operand x, program point, True if the condition being true
+    means x != 0) or None."""
+    from ..dataflow import const_of, cond_at, FLIP
+    if c.kind == "call" and c.callee.endswith("::is_zero") and c.term["args"]:
+        return c.term["args"][0], view.at_term(c.block), bool(c.neg)
+    if c.kind != "cmp" or c.b is None:
+        return None
+    at = cond_at(view, c)
+    ka, kb = const_of(view, c.a, at), const_of(view, c.b, at)
+    if kb == 0 and ka is None:
+        x, op = c.a, c.op
+    elif ka == 0 and kb is None:
+        x, op = c.b, FLIP[c.op]
+    else:
+        return None
+    nz = {"!=": True, ">": True, "==": False, "<=": False}.get(op)
+    if nz is None:
+        return None
+    return x, at, nz
+
+
+def nonzero_edges(view, b, c):
+    """(operand, at, edges taken when the operand is non-zero, edges taken when it is zero) for a zero test, else None."""
+    from ..mir import cmp_true_false_edges
+    z = zero_test(view, c)
+    if z is None:
+        return None
+    x, at, nz = z
+    te, fe = cmp_true_false_edges(view, b, c)
+    return (x, at, te, fe) if nz else (x, at, fe, te)
